@@ -925,7 +925,7 @@ class Interp(object):
                 return o.shape
             if name in ('T', 'ndim', 'size', 'dtype'):
                 return getattr(o, name)
-            if name in ('copy', 'flatten', 'ravel', 'reshape', 'squeeze', 'astype', 'any', 'all', 'sum', 'tolist', 'item', 'fill'):
+            if name in ('copy', 'flatten', 'ravel', 'reshape', 'squeeze', 'astype', 'any', 'all', 'sum', 'tolist', 'item', 'fill', 'transpose'):
                 return getattr(o, name)
             if name in ('max', 'min'):
                 return lambda axis=None: NP._minmax(o, axis, name)
